@@ -174,16 +174,18 @@ namespace ST
             if (this == &copy)
                 return *this;
 
-            if (is_reffed()) {
-                delete[] m_chars;
-                m_size = 0;
-            }
-
             if (copy.is_reffed()) {
-                m_chars = new char_T[copy.m_size + 1];
-                traits_t::copy(m_chars, copy.m_chars, copy.m_size);
-                m_chars[copy.m_size] = 0;
+                // Allocate before releasing anything, so that a failed
+                // allocation leaves this buffer untouched
+                char_T *chars = new char_T[copy.m_size + 1];
+                traits_t::copy(chars, copy.m_chars, copy.m_size);
+                chars[copy.m_size] = 0;
+                if (is_reffed())
+                    delete[] m_chars;
+                m_chars = chars;
             } else {
+                if (is_reffed())
+                    delete[] m_chars;
                 traits_t::copy(m_data, copy.m_data, local_length);
                 m_chars = m_data;
             }
@@ -419,13 +421,17 @@ namespace ST
 
         void allocate(size_t size)
         {
+            // Allocate before releasing anything, so that a failed
+            // allocation leaves this buffer untouched
+            char_T *chars = (size >= local_length) ? new char_T[size + 1] : m_data;
+
             if (is_reffed())
                 delete[] m_chars;
             else
                 traits_t::assign(m_data, local_length, 0);
 
             m_size = size;
-            m_chars = is_reffed() ? new char_T[m_size + 1] : m_data;
+            m_chars = chars;
             m_chars[m_size] = 0;
         }
 
